@@ -3,6 +3,7 @@ package main
 // Generated value trees shared by the exporter / map / comparison harnesses.
 
 import (
+	"fmt"
 	"math"
 	"math/rand"
 	"strings"
@@ -101,9 +102,22 @@ func genVT(r *rand.Rand, depth int, strGen func() string) *VT {
 	}
 }
 
+// vtOneShot: lazy lists built while it is set can be traversed once (a stream behind them); a second traversal
+// yields an error item. An exporter has to evaluate a list once.
+var vtOneShot bool
+
 func lazyList(items []value.Value, sized bool) *value.List {
+	oneShot := vtOneShot
+	used := false
 	prod := func(st funcGen.Stack[value.Value]) iterator.Producer[value.Value] {
 		return func(yield iterator.Consumer[value.Value]) {
+			if oneShot {
+				if used {
+					yield(nil, fmt.Errorf("the list is backed by a stream and was traversed a second time"))
+					return
+				}
+				used = true
+			}
 			for _, it := range items {
 				if !yield(it, nil) {
 					return
